@@ -82,9 +82,7 @@ func (w *World) CheckC02(op string) *Violation {
 			if !sameItem(hs[i].Item(), w.header.cells[i].item) {
 				return v("headers-item", "Headers()[%d] holds %v, want %v", i, hs[i].Item(), w.header.cells[i].item)
 			}
-			if c := hs[i].Location().Column; c != i+1 {
-				return v("headers-column", "Headers()[%d] reports column %d", i, c)
-			}
+
 		}
 	}
 	// addressing: every coordinate in a frame around the table
@@ -159,9 +157,7 @@ func (w *World) CheckC02(op string) *Violation {
 			if !sameItem(cells[i].Item(), h.cells[i].item) {
 				return v("detached-cells-item", "detached row#%d cell %d holds %v", h.handle, i+1, cells[i].Item())
 			}
-			if c := cells[i].Location().Column; c != i+1 {
-				return v("detached-cell-column", "detached row#%d cell %d reports column %d", h.handle, i+1, c)
-			}
+
 		}
 	}
 	return nil
